@@ -58,6 +58,9 @@ type opCase struct {
 	Scalar h.B    `json:"scalar,omitempty"` // scalar byte string for mult/basemult
 	X      scalar `json:"x,omitempty"`      // raw coordinates for oncurve
 	Y      scalar `json:"y,omitempty"`
+	// reuse: further (point, scalar) pairs for the same argument objects
+	Scalar2 h.B `json:"scalar2,omitempty"`
+	Scalar3 h.B `json:"scalar3,omitempty"`
 }
 
 func fmtPt(p ref.Point) string {
@@ -88,6 +91,17 @@ func relation(k1, k2 *big.Int) string {
 		return "P+P"
 	case new(big.Int).Add(a, b).Cmp(K.N) == 0:
 		return "P+(-P)"
+	}
+	// same y, different x (Q = lambda*P or lambda^2*P) / opposite y, different x
+	for _, l := range []*big.Int{lambda, lambda2} {
+		la := new(big.Int).Mul(a, l)
+		la.Mod(la, K.N)
+		if la.Cmp(b) == 0 {
+			return "P+lambdaP"
+		}
+		if la.Add(la, b).Cmp(K.N) == 0 {
+			return "P+(-lambdaP)"
+		}
 	}
 	return "P+Q"
 }
@@ -234,6 +248,56 @@ func checkOn(name string, cv stdelliptic.Curve, c opCase) (h.Info, error) {
 			return info, fmt.Errorf("ScalarBaseMult(%x) [%s] = %s %v, want %s", []byte(c.Scalar), sc, fmtPt(g), errStr(err), fmtPt(want))
 		}
 		return info, nil
+	case "reuse":
+		// a caller that keeps ONE pair of coordinate objects and ONE scalar buffer and overwrites them in
+		// place between calls (x.Set(...), copy(buf, ...)): every call is judged by the values it is given
+		pts := []ref.Point{pointOf(c.K1), pointOf(c.K2), pointOf(c.K3)}
+		scs := [][]byte{c.Scalar, c.Scalar2, c.Scalar3}
+		info := h.Info{Class: "reuse/points", NT: true}
+		if pts[0].Inf || pts[1].Inf || pts[2].Inf {
+			info.Class = "reuse/with-identity"
+		}
+		x, y := new(big.Int), new(big.Int)
+		buf := make([]byte, 0, 128)
+		for i := range pts {
+			px, py := pts[i].XY()
+			x.Set(px)
+			y.Set(py)
+			buf = append(buf[:0], scs[i]...)
+			rx, ry := cv.ScalarMult(x, y, buf)
+			g, err := got(rx, ry)
+			want := K.Mul(pts[i], new(big.Int).SetBytes(scs[i]))
+			if err != nil || !g.Equal(want) {
+				return info, fmt.Errorf("call %d of a sequence that reuses one pair of coordinate objects (set in place) and one scalar buffer: ScalarMult(%s, %x) = %s %v, want %s (previous point %s)", i, fmtPt(pts[i]), scs[i], fmtPt(g), errStr(err), fmtPt(want), fmtPt(pts[(i+2)%3]))
+			}
+			if x.Cmp(px) != 0 || y.Cmp(py) != 0 {
+				return info, fmt.Errorf("ScalarMult modified its arguments")
+			}
+		}
+		// second pass: the other entry points with the same reused objects
+		for i := range pts {
+			px, py := pts[i].XY()
+			x.Set(px)
+			y.Set(py)
+			buf = append(buf[:0], scs[i]...)
+			bx, by := cv.ScalarBaseMult(buf)
+			g, err := got(bx, by)
+			if wantB := K.BaseMul(new(big.Int).SetBytes(scs[i])); err != nil || !g.Equal(wantB) {
+				return info, fmt.Errorf("call %d of a sequence that reuses one scalar buffer: ScalarBaseMult(%x) = %s %v, want %s", i, scs[i], fmtPt(g), errStr(err), fmtPt(wantB))
+			}
+			dx, dy := cv.Double(x, y)
+			g, err = got(dx, dy)
+			if wantD := K.Add(pts[i], pts[i]); err != nil || !g.Equal(wantD) {
+				return info, fmt.Errorf("call %d, reused coordinate objects: Double(%s) = %s %v, want %s", i, fmtPt(pts[i]), fmtPt(g), errStr(err), fmtPt(wantD))
+			}
+			qx, qy := pts[(i+1)%3].XY()
+			ax, ay := cv.Add(x, y, qx, qy)
+			g, err = got(ax, ay)
+			if wantA := K.Add(pts[i], pts[(i+1)%3]); err != nil || !g.Equal(wantA) {
+				return info, fmt.Errorf("call %d, reused coordinate objects: Add(%s, %s) = %s %v, want %s", i, fmtPt(pts[i]), fmtPt(pts[(i+1)%3]), fmtPt(g), errStr(err), fmtPt(wantA))
+			}
+		}
+		return info, nil
 	case "oncurve":
 		x, y := c.X.big(), c.Y.big()
 		if x.Cmp(K.P) >= 0 || y.Cmp(K.P) >= 0 {
@@ -313,6 +377,20 @@ func errStr(err error) string {
 
 var bigOne = big.NewInt(1)
 
+// lambda, lambda2: the non-trivial cube roots of unity mod n; lambda*(x,y) = (beta*x, y), the only
+// pairs of distinct points with equal y (and with -lambda: opposite y) on this curve.
+var lambda, lambda2 = func() (*big.Int, *big.Int) {
+	e := new(big.Int).Sub(ref.K1.N, big.NewInt(1))
+	e.Div(e, big.NewInt(3))
+	for g := int64(2); ; g++ {
+		l := new(big.Int).Exp(big.NewInt(g), e, ref.K1.N)
+		if l.Cmp(big.NewInt(1)) != 0 {
+			l2 := new(big.Int).Mul(l, l)
+			return l, l2.Mod(l2, ref.K1.N)
+		}
+	}
+}()
+
 func cornerScalars() []*big.Int {
 	n := K.N
 	half := new(big.Int).Rsh(n, 1) // (n-1)/2
@@ -322,6 +400,9 @@ func cornerScalars() []*big.Int {
 		half, new(big.Int).Add(half, bigOne),
 		new(big.Int).Set(n), new(big.Int).Add(n, bigOne), new(big.Int).Lsh(n, 1),
 		new(big.Int).Sub(new(big.Int).Lsh(bigOne, 256), bigOne),
+		// endomorphism corners: the ladder adds B to lambda*B (equal y) for the scalar lambda+1
+		new(big.Int).Set(lambda), new(big.Int).Add(lambda, bigOne), new(big.Int).Sub(lambda, bigOne),
+		new(big.Int).Set(lambda2), new(big.Int).Add(lambda2, bigOne), new(big.Int).Sub(K.N, lambda),
 	}
 }
 
@@ -335,7 +416,14 @@ func genK(t *rapid.T, label string) *big.Int {
 }
 
 func genScalarBytes(t *rapid.T) []byte {
-	switch h.Pick(t, "sk", 3, 3, 1, 1, 1) {
+	switch h.Pick(t, "sk", 3, 3, 1, 1, 1, 1) {
+	case 5: // a corner scalar as a proper bit prefix of a longer scalar (the ladder passes through it)
+		cs := cornerScalars()
+		v := new(big.Int).Set(cs[rapid.IntRange(0, len(cs)-1).Draw(t, "pc")])
+		sh := uint(rapid.IntRange(1, 24).Draw(t, "psh"))
+		v.Lsh(v, sh)
+		v.Or(v, big.NewInt(int64(rapid.IntRange(0, 1<<sh-1).Draw(t, "plow"))))
+		return v.Bytes()
 	case 0:
 		cs := cornerScalars()
 		b := cs[rapid.IntRange(0, len(cs)-1).Draw(t, "sc")].Bytes()
@@ -358,13 +446,21 @@ func genScalarBytes(t *rapid.T) []byte {
 func hexOf(v *big.Int) scalar { return scalar(fmt.Sprintf("%x", v)) }
 
 func genOp(t *rapid.T) opCase {
-	op := []string{"add", "double", "mult", "basemult", "oncurve", "laws"}[h.Pick(t, "op", 5, 1, 3, 3, 2, 3)]
+	op := []string{"add", "double", "mult", "basemult", "oncurve", "laws", "reuse"}[h.Pick(t, "op", 5, 1, 3, 3, 2, 3, 1)]
 	c := opCase{Op: op}
 	k1 := genK(t, "k1")
 	c.K1 = hexOf(k1)
 	switch op {
 	case "add", "laws":
-		switch h.Pick(t, "rel", 4, 2, 2, 1) {
+		switch h.Pick(t, "rel", 4, 2, 2, 1, 2) {
+		case 4: // equal or opposite y with a different x
+			l := h.OneOf(t, "lam", lambda, lambda2)
+			k2 := new(big.Int).Mul(new(big.Int).Mod(k1, K.N), l)
+			k2.Mod(k2, K.N)
+			if rapid.Bool().Draw(t, "neglam") {
+				k2.Sub(K.N, k2).Mod(k2, K.N)
+			}
+			c.K2 = hexOf(k2)
 		case 0:
 			c.K2 = hexOf(genK(t, "k2"))
 		case 1:
@@ -392,6 +488,12 @@ func genOp(t *rapid.T) opCase {
 		}
 	case "mult", "basemult":
 		c.Scalar = genScalarBytes(t)
+	case "reuse":
+		c.K2, c.K3 = hexOf(genK(t, "k2")), hexOf(genK(t, "k3"))
+		if h.Pick(t, "same", 2, 1) == 1 {
+			c.K3 = c.K1
+		}
+		c.Scalar, c.Scalar2, c.Scalar3 = genScalarBytes(t), genScalarBytes(t), genScalarBytes(t)
 	case "oncurve":
 		x := new(big.Int).SetBytes(rapid.SliceOfN(rapid.Byte(), 32, 32).Draw(t, "x"))
 		x.Mod(x, K.P)
@@ -464,8 +566,8 @@ func TestOps(t *testing.T) {
 		Prop: "C17", Name: "group-ops", N: 3000,
 		Gen: genOp, Check: checkOp,
 		Require: []string{"add/P+Q", "add/P+P", "add/P+(-P)", "add/P+O", "add/O+O", "double/P", "mult/zero", "mult/n", "mult/>n", "mult/<n", "mult/empty",
-			"basemult/zero", "basemult/n", "basemult/>n", "basemult/leading-zero", "oncurve/true", "oncurve/false", "oncurve/true-coordinate>=n", "laws/P+Q", "laws/P+P", "laws/P+(-P)"},
-		Rule: "points given by their discrete log (corners 0,1,2,3,n-1,n-2,(n+-1)/2,n,n+1,2n,2^256-1 and random), pairs random/equal/opposite/identity, scalar byte strings (corners with leading zeros, all-zero of length 0..40, 33-48 bytes, random), IsOnCurve on roots / negated roots / neighbours / (0,0) and on genuine curve points whose y lies in [n, p) or within 64 of p (x by cube root); every operation on both copies of the curve = affine reference with explicit case analysis, identity as (0,0), no panic; group laws on the implementation alone; non-trivial = corner pair/scalar, identity involved, law instance, on-curve query; distinct by case",
+			"basemult/zero", "basemult/n", "basemult/>n", "basemult/leading-zero", "oncurve/true", "oncurve/false", "oncurve/true-coordinate>=n", "laws/P+Q", "laws/P+P", "laws/P+(-P)", "add/P+lambdaP", "add/P+(-lambdaP)", "reuse/points", "reuse/with-identity"},
+		Rule: "points given by their discrete log (corners 0,1,2,3,n-1,n-2,(n+-1)/2,n,n+1,2n,2^256-1, the endomorphism eigenvalues lambda, lambda+-1, lambda^2, lambda^2+1, n-lambda, and random), pairs random/equal/opposite/identity/equal-y-different-x (Q = +-lambda P), corner scalars as bit prefixes of longer scalars, sequences that reuse one pair of coordinate objects and one scalar buffer in place, scalar byte strings (corners with leading zeros, all-zero of length 0..40, 33-48 bytes, random), IsOnCurve on roots / negated roots / neighbours / (0,0) and on genuine curve points whose y lies in [n, p) or within 64 of p (x by cube root); every operation on both copies of the curve = affine reference with explicit case analysis, identity as (0,0), no panic; group laws on the implementation alone; non-trivial = corner pair/scalar, identity involved, law instance, on-curve query; distinct by case",
 	})
 }
 
@@ -473,7 +575,7 @@ func TestOps(t *testing.T) {
 func TestCornerGrid(t *testing.T) {
 	h.RunEnum(t, h.Enum[opCase]{
 		Prop: "C17", Name: "corner-grid",
-		Rule: "complete grid over the 12 corner scalars: Add on all 144 ordered pairs, Double, ScalarBaseMult and ScalarMult (on 4 base points incl. the identity) for every corner scalar with 0..2 leading zero bytes",
+		Rule: "complete grid over the 18 corner scalars: Add on all 324 ordered pairs, Double, ScalarBaseMult and ScalarMult (on 4 base points incl. the identity) for every corner scalar with 0..2 leading zero bytes",
 		Each: func(yield func(opCase) bool) {
 			cs := cornerScalars()
 			for _, a := range cs {
